@@ -1,2 +1,69 @@
 import Wasp.Model.Broker
-/-! # C14 (broker level) — theorem statements are being added; see DESIGN.md §4 -/
+/-!
+# C14 — a publish reaches matching subscribers on other nodes exactly once
+# C05 (first half) — stored before acknowledged
+
+`World.distribute i p` is PublishDistributor.Distribute on node i (local Append, or the
+ScheduleMessage RPC = Append on the remote node), followed on each node that stored the message by
+its Scheduler + writer (`deliverLocal`).
+
+* `C14_dest_log`: for EVERY placement, topic, filter set and fault pattern, the message is appended
+  exactly once to the log of each node that hosts a matching subscription KNOWN TO THE PUBLISHING NODE,
+  is reachable and whose log accepts the write — and to no other node's log;
+* `C14_result`: Distribute reports success iff every destination was reachable and stored the message
+  (a failing destination does not stop the others: `C14_dest_log` holds regardless);
+* `C14_local_only`: a node's writer resolves recipients among the subscriptions naming that node as
+  their peer;
+* `C05_job`: the publish worker invokes the acknowledgement callback iff Distribute succeeded.
+Node peers are pairwise distinct (`PeersDistinct`).
+-/
+namespace Wasp.Broker
+open Wasp.Dist Wasp.Topic
+
+def PeersDistinct (w : World) : Prop :=
+  ∀ a b, a < w.nodes.length → b < w.nodes.length → (w.node a).peer = (w.node b).peer → a = b
+
+/-- the peers Distribute addresses: those of the matching added subscriptions in node i's view -/
+def destinations (w : World) (i : Nat) (p : Pub) : List Nat :=
+  dedupNat ((subByPattern (w.node i).dist p.topic).map (·.peer))
+
+/-- node j can be reached from node i -/
+def reachableFrom (w : World) (i j : Nat) : Bool := j == i || !((w.node j).failed || (w.node j).unreachable)
+
+/-- the next Append on node j is accepted -/
+def logAccepts (n : Node) : Bool := !(n.logFailAll || n.logFailAt.contains n.logCalls)
+
+theorem C14_dest_log (w : World) (i : Nat) (p : Pub) (hd : PeersDistinct w) (hi : i < w.nodes.length) (j : Nat) (hj : j < w.nodes.length) :
+    ((w.distribute i p).1.node j).log =
+      (w.node j).log ++ (if (w.node j).peer ∈ destinations w i p ∧ reachableFrom w i j = true ∧ logAccepts (w.node j) = true then [p] else []) := by
+  sorry
+
+theorem C14_result (w : World) (i : Nat) (p : Pub) (hd : PeersDistinct w) (hi : i < w.nodes.length) :
+    (w.distribute i p).2 = true ↔
+      ∀ peer ∈ destinations w i p, ∃ j, j < w.nodes.length ∧ (w.node j).peer = peer ∧ reachableFrom w i j = true ∧ logAccepts (w.node j) = true := by
+  sorry
+
+/-- the writer of node j only writes to sessions of subscriptions that name node j -/
+theorem C14_local_only (w : World) (j : Nat) (p : Pub) (conn : String) (pk : Pkt)
+    (h : (conn, pk) ∈ (w.deliverLocal j p).out) (hnew : (conn, pk) ∉ w.out) :
+    ∃ s sub, (w.node j).sess sub.session = some s ∧ s.conn = conn ∧ sub ∈ subByPattern (w.node j).dist p.topic ∧ sub.peer = (w.node j).peer := by
+  sorry
+
+/-- retain handling of the publish worker (the state before Distribute) -/
+def afterRetain (w : World) (i : Nat) (p : Pub) : World :=
+  if p.retain then
+    let (w, t) := w.tick
+    let n := w.node i
+    let (d, ev) := if p.payload = "" then topicDelete n.dist t p.topic else topicSet n.dist t p.topic p.payload p.qos true p.dup
+    (w.setNode i { n with dist := d }).broadcast i ev
+  else w
+
+/-- the acknowledgement callback runs iff every destination stored the message; the copy that is
+    distributed is never flagged retained -/
+theorem C05_job (w : World) (i : Nat) (p : Pub) (onOk : World → World) :
+    w.publishJob i p onOk =
+      (let r := (afterRetain w i p).distribute i { p with retain := false }
+       if r.2 then onOk r.1 else r.1) := by
+  sorry
+
+end Wasp.Broker
